@@ -56,7 +56,18 @@ where
         .map_err(Box::from)
         .context(BuildChunkSnafu)?;
 
-    let length = data.len() as u16;
+    // the length field has 16 bits: refuse longer content instead of truncating the length
+    let length = u16::try_from(data.len())
+        .map_err(|_| {
+            std::io::Error::new(
+                std::io::ErrorKind::InvalidInput,
+                format!(
+                    "chunk of {} bytes does not fit a 16-bit length field",
+                    data.len()
+                ),
+            )
+        })
+        .context(WriteLengthSnafu)?;
     writer
         .write_u16::<BigEndian>(length)
         .context(WriteLengthSnafu)?;
